@@ -21,11 +21,15 @@ Record obs := {
 
 Definition case := (input * obs)%type.
 
+(* a stored value is 2*row + nc, nc = 1 for the non-canonical encoding of the same row
+   (trailing NULL field kept); valDesc.Compare sees the row only *)
+Definition row_of (v : val) : N := v / 2.
+
 Definition model_obs (i : input) : obs :=
-  {| o_diff := diff_maps node_eqb false (i_ta i) (i_tb i);
-     o_all := diff_maps node_eqb true (i_ta i) (i_tb i);
-     o_krng := map (fun r => key_range_diff node_eqb (fst r) (snd r) (i_ta i) (i_tb i)) (i_rng i);
-     o_rrng := map (fun r => range_diff node_eqb (fst r) (snd r) (i_ta i) (i_tb i)) (i_rng i) |}.
+  {| o_diff := diff_maps node_eqb row_of false (i_ta i) (i_tb i);
+     o_all := diff_maps node_eqb row_of true (i_ta i) (i_tb i);
+     o_krng := map (fun r => key_range_diff node_eqb row_of (fst r) (snd r) (i_ta i) (i_tb i)) (i_rng i);
+     o_rrng := map (fun r => range_diff node_eqb row_of (fst r) (snd r) (i_ta i) (i_tb i)) (i_rng i) |}.
 
 Definition change_eqb (a b : change) : bool :=
   match a, b with
@@ -56,10 +60,12 @@ Definition obs_eqb (a b : obs) : bool :=
 Definition oracle (i : input) (o : obs) : bool :=
   wf_rootb (i_ta i) && wf_rootb (i_tb i)
   && list_eqb kv_eqb (flatten (i_ta i)) (i_da i) && list_eqb kv_eqb (flatten (i_tb i)) (i_db i)
-  && ocl_eqb (o_diff o) (Some (list_diff (i_da i) (i_db i)))
-  && ocl_eqb (o_all o) (Some (list_diff (i_da i) (i_db i)))
-  && list_eqb ocl_eqb (o_krng o) (map (fun r => Some (range_list_diff (fst r) (snd r) (i_da i) (i_db i))) (i_rng i))
-  && list_eqb ocl_eqb (o_rrng o) (map (fun r => Some (range_list_diff (fst r) (snd r) (i_da i) (i_db i))) (i_rng i)).
+  (* every entry point reports the diff of the decoded rows: the same row stored in two
+     encodings is not a change *)
+  && ocl_eqb (o_diff o) (Some (list_diff_d row_of (i_da i) (i_db i)))
+  && ocl_eqb (o_all o) (Some (list_diff_d row_of (i_da i) (i_db i)))
+  && list_eqb ocl_eqb (o_krng o) (map (fun r => Some (range_list_diff_d row_of (fst r) (snd r) (i_da i) (i_db i))) (i_rng i))
+  && list_eqb ocl_eqb (o_rrng o) (map (fun r => Some (range_list_diff_d row_of (fst r) (snd r) (i_da i) (i_db i))) (i_rng i)).
 
 Definition check_case (c : case) : N :=
   (if obs_eqb (model_obs (fst c)) (snd c) then 0 else 1)
